@@ -81,14 +81,29 @@ class C18(Check):
         q = tier == "quick"
         rng = np.random.default_rng([seed, 18])
         kinds = ["dataframe", "hdf5", "fits", "parquet", "random"]
-        for i in range(150 if q else 5000):
+        modes = ["centres", "index", "generate"]
+        i = 0
+        # stratified: every (source, mode) gets multi-chunk inputs at and around chunk multiples
+        for rep in range(1 if q else 30):
+            for source in kinds:
+                for mode in modes:
+                    if source == "random" and mode == "index":
+                        continue
+                    for c, n in ((7, 15), (3, 9), (100, 250), (2, 5), (1, 4), (7, 7), (100, 99), (7, 8)):
+                        if q and (c, n) in ((1, 4), (2, 5)) and source in ("fits", "parquet"):
+                            continue
+                        i += 1
+                        yield dict(seed=seed * 100003 + i, source=source, n=n + (int(rng.integers(0, 3)) * c if rep else 0), chunk=c,
+                                   mode=mode, workers=1 if i % 3 else 4, group=str(rng.choice(["smaller", "equal", "larger", "one"])))
+        for j in range(40 if q else 3000):
             c = int(rng.choice([1, 2, 3, 7, 100]))
             n = int(rng.choice([1, 2, max(1, c - 1), c, c + 1, 2 * c - 1, 2 * c, 2 * c + 1, 97, 3 * c + 1]))
             n = max(n, 1)
             chunk = c if rng.random() < 0.75 else int(rng.choice([n, n + 5, 10**6]))
-            yield dict(seed=seed * 100003 + i, source=kinds[i % 5], n=n, chunk=chunk,
-                       mode=str(rng.choice(["centres", "index", "generate"], p=[0.5, 0.3, 0.2])),
-                       workers=1 if i % 3 else 4, group=str(rng.choice(["smaller", "equal", "larger", "one"])))
+            i += 1
+            yield dict(seed=seed * 100003 + i, source=kinds[j % 5], n=n, chunk=chunk,
+                       mode=str(rng.choice(modes, p=[0.5, 0.3, 0.2])),
+                       workers=1 if j % 3 else 4, group=str(rng.choice(["smaller", "equal", "larger", "one"])))
 
     def setup_worker(self):
         warnings.simplefilter("ignore")
